@@ -473,6 +473,26 @@ func (p *Party) Pay(ch *client.Channel, a int, amount int64, final bool) error {
 // Quiesce waits until the bus is drained and the ledger idle (bounded; returns false on watchdog).
 func (w *World) Quiesce() bool { return w.QuiesceBusy(0) }
 
+// QuiesceFor is Quiesce with a short patience.
+func (w *World) QuiesceFor(d time.Duration) bool {
+	deadline := time.Now().Add(d)
+	stable := 0
+	for {
+		if w.Bus.Drained() && w.Ledger.Idle() && atomic.LoadInt64(&w.Busy) == 0 {
+			stable++
+			if stable >= 5 {
+				return true
+			}
+		} else {
+			stable = 0
+		}
+		if time.Now().After(deadline) {
+			return false
+		}
+		time.Sleep(100 * time.Microsecond)
+	}
+}
+
 // QuiesceBusy is Quiesce for callers that run inside a handler themselves: allowed is the number
 // of handler invocations that may be in flight.
 func (w *World) QuiesceBusy(allowed int64) bool {
